@@ -288,6 +288,12 @@ def checkOps (c0 : Case) : CaseResult := Id.run do
           specfail := specfail <|> some s!"step {i} ({kinds}): libavoid's hyperedge tree is not a well-formed tree after the operation (wfb={wfb after.s.t} isTree={isTree after.s.t.graphV after.s.t.graphE}; {after.s.t.nodes.length} nodes, {after.s.t.edges.length} edges)"
         if (kind == "rzle" || kind == "move") && beforeOk && jinvb cur.s && !jinvb after.s then
           specfail := specfail <|> some s!"step {i} ({kinds}): junction bookkeeping inconsistent after the rewrite (junction map / deleted list / roots vs. the junctions carried by tree nodes)"
+        -- Props/C12Ops.removeZeroLengthEdges_same_terminals on libavoid's own states: where the side
+        -- condition holds before the call, the set of leaf objects must be the same after it
+        if kind == "rzle" && beforeOk && afterOk && noLeafZerob cur.s.t then
+          stats := bumpStats stats "ops.rzle-terminal-theorem-applies" 1
+          if sortedNat after.s.t.leaves != sortedNat cur.s.t.leaves then
+            specfail := specfail <|> some s!"step {i} ({kinds}): removeZeroLengthEdges changed the terminal set although no zero-length edge ended at a leaf: leaves {sortedNat cur.s.t.leaves} -> {sortedNat after.s.t.leaves}"
         if (kind == "rzle" || kind == "move") && beforeOk && afterOk then
           -- not failures: the as-coded rewrites merge leaves when the side conditions of
           -- Props/C12Ops (`*_same_terminals`) do not hold; counted to show that this happens
